@@ -20,6 +20,14 @@ CHECKS = {
                      'expansion that doc/Rule-Reference.md states for it, over all symbolic sub-rule behaviours within the bound; the oracle is parsed from the documentation at run time.'),
 }
 
+CHECKS['C04'] = ('4.C04', 'The complete sequence of action invocations (void and bool, apply and apply0, apply<>/apply0<>/if_apply<> pseudo rules) with their exact spans, interleaved with '
+                 'the rule hooks, produced by the real match() machinery is proved equal to the reference protocol for named rules over symbolic sub-rules: an action fires iff its rule '
+                 'just matched with actions enabled, with begin = cursor at entry and end = cursor now; none inside at/not_at/disable; veto turns the match into a local failure with the '
+                 'cursor restored; eager and lazy inputs.')
+CHECKS['C08'] = ('4.C08', 'The complete hook sequence start / apply / success / failure / unwind / raise of the real match() machinery is proved equal to the reference protocol (balanced, '
+                 'truthful, properly nested) for grammars of named rules over symbolic sub-rules, for controls with and without unwind(), with none / void / bool vetoing or throwing actions, '
+                 'including exceptions from must-rules, sub-rules and actions and their conversion by try_catch rules; balance of whole runs follows by induction over frames.')
+
 NOT_YET = {}
 
 
